@@ -23,6 +23,41 @@ def _signed(v, bits):
     return v - (1 << bits) if v >> (bits - 1) else v
 
 
+STRLIB = {"strlen", "strcmp", "strncmp", "strstr", "strcasecmp", "strncasecmp", "strcasestr",
+          "jet_strcasecmp", "jet_strncasecmp", "jet_strcasestr"}
+
+
+def _cstr(p, arrays, loc):
+    if not (isinstance(p, tuple) and p[0] == "arr"):
+        raise AnalysisBroken("feval: string function on something that is no input string (%s)" % loc)
+    data = arrays[p[1]]
+    if p[2] < 0 or p[2] > len(data):
+        raise OutOfInput("string function reads at offset %d of an input of %d byte(s) (%s)" % (p[2], len(data), loc))
+    end = data.find(b"\0", p[2])
+    if end < 0:
+        raise OutOfInput("string function runs off the end of an input without terminator (%s)" % loc)
+    return data[p[2]:end]
+
+
+def _strlib(name, a, arrays, loc):
+    """the C library's string functions on input arrays (the jet_* wrappers are what C16.2 R-SIB shows them to be)"""
+    fold = name in ("strcasecmp", "strncasecmp", "strcasestr", "jet_strcasecmp", "jet_strncasecmp", "jet_strcasestr")
+    low = (lambda b: bytes(c + 32 if 65 <= c <= 90 else c for c in b)) if fold else (lambda b: b)
+    base = name.replace("jet_", "").replace("case", "")
+    if base == "strlen":
+        return len(_cstr(a[0], arrays, loc))
+    if base in ("strcmp", "strncmp"):
+        x, y = low(_cstr(a[0], arrays, loc)), low(_cstr(a[1], arrays, loc))
+        if base == "strncmp":
+            x, y = x[:a[2]], y[:a[2]]
+        return 0 if x == y else (_mask(-1, 32) if x < y else 1)
+    if base == "strstr":
+        h, n = low(_cstr(a[0], arrays, loc)), low(_cstr(a[1], arrays, loc))
+        k = h.find(n)
+        return 0 if k < 0 else ("arr", a[0][1], a[0][2] + k)
+    raise AnalysisBroken("feval: string function %s" % name)
+
+
 class FEval:
     def __init__(self, P, f, struct, ptr_param=0):
         self.P = P
@@ -35,7 +70,7 @@ class FEval:
         for i in f.all_insts():
             self.optype[i.id] = i.ty
 
-    def run(self, fields, args, max_steps=5000, arrays=None, callees=None, share=False):
+    def run(self, fields, args, max_steps=5000, arrays=None, callees=None, share=False, objs=None):
         """fields: dict field-index -> int (state), args: dict param id -> int.
         arrays: dict param id -> bytes (a parameter that points to constant input bytes);
         callees: dict ir-name -> FEval for direct calls that are handed the state pointer as their first argument.
@@ -48,6 +83,10 @@ class FEval:
             vals[k] = v
         for k in (arrays or {}):
             vals[k] = ("arr", k, 0)
+        # objs: parameter id -> {path key: value}: a read-only object whose cells hold integers or pointers to input arrays,
+        # path key = tuple of ("f", field index) / ("a", element index) steps (used for struct path_matcher)
+        for k in (objs or {}):
+            vals[k] = ("obj", k, ())
         if self.ptr_param is not None:
             vals[self.ptr_param] = ("ptr", None)
 
@@ -64,6 +103,8 @@ class FEval:
                     return ("gptr", o[1])
                 raise AnalysisBroken("feval: non-constant global %s" % o[1])
             if o[0] == "u":
+                return 0
+            if o[0] == "n":
                 return 0
             raise AnalysisBroken("feval: operand %r" % (o,))
         b = 0
@@ -90,7 +131,29 @@ class FEval:
                 op = i.op
                 if op == "phi":
                     continue
-                if op == "alloca":
+                if op == "getelementptr" and isinstance(val(i.a[0]), tuple) and val(i.a[0])[0] == "obj":
+                    base = val(i.a[0])
+                    key = list(base[2])
+                    for stp in i.path:
+                        if stp[0] == "p":
+                            if val(stp[1]) != 0:
+                                raise AnalysisBroken("feval: unsupported address computation at %s" % i.loc)
+                        elif stp[0] == "f":
+                            key.append(("f", stp[2]))
+                        elif stp[0] == "a":
+                            key.append(("a", _signed(val(stp[1]), _bits(self.optype.get(stp[1]) if isinstance(stp[1], int) else "i%d" % stp[1][2]))))
+                        else:
+                            raise AnalysisBroken("feval: unsupported address computation at %s" % i.loc)
+                    vals[i.id] = ("obj", base[1], tuple(key))
+                elif op == "load" and isinstance(val(i.a[0]), tuple) and val(i.a[0])[0] == "obj":
+                    pa = val(i.a[0])
+                    cells = objs[pa[1]]
+                    if pa[2] not in cells:
+                        raise OutOfInput("%s reads %r of its object, which the input does not have (%s)" % (f.srcname, pa[2], i.loc))
+                    vals[i.id] = cells[pa[2]]
+                elif op == "call" and i.callee and arrays is not None and P.srcname_of(i.callee) in STRLIB:
+                    vals[i.id] = _strlib(P.srcname_of(i.callee), [val(a) for a in i.a], arrays, i.loc)
+                elif op == "alloca":
                     # a local object: its bytes (little-endian targets), addressed by ("loc", id, offset)
                     size = getattr(i, "size", None)
                     if size is None:
@@ -212,6 +275,11 @@ class FEval:
                     x, y = val(i.a[0]), val(i.a[1])
                     bits = _bits(i.ty)
                     vals[i.id] = _mask(_signed(x, bits) >> (y % bits), bits)
+                elif op == "icmp" and (isinstance(val(i.a[0]), tuple) or isinstance(val(i.a[1]), tuple)):
+                    x, y = val(i.a[0]), val(i.a[1])
+                    if i.pred not in ("eq", "ne") or not (x == 0 or y == 0 or (isinstance(x, tuple) and isinstance(y, tuple))):
+                        raise AnalysisBroken("feval: unsupported pointer comparison at %s" % i.loc)
+                    vals[i.id] = 1 if ((x == y) == (i.pred == "eq")) else 0
                 elif op == "icmp":
                     x, y = val(i.a[0]), val(i.a[1])
                     bits = _bits(self.optype.get(i.a[0]) if isinstance(i.a[0], int) else "i%d" % i.a[0][2])
